@@ -101,7 +101,10 @@ CPlaced(t) ==
 CConvert(t, a, cfg) ==
     IF t.method = "MPS" THEN OK                      \* MPS rejections are skipped (and counted by the harness)
     ELSE IF t.conv_ok THEN
-        IF Rejected(a, cfg) THEN D("a configuration the model lists as rejected by plinio was accepted") ELSE OK
+        IF Rejected(a, cfg) THEN D("a configuration the model lists as rejected by plinio was accepted")
+        ELSE IF Dev("asis", F53_OPEN) /\ KF_BnNoAffine(a, cfg)
+             THEN D("F53 predicted by the as-implemented model (constructor raises on BatchNorm(affine=False)) but not observed")
+        ELSE OK
     ELSE IF (Rej_Trs(a, cfg) /\ t.errk = "trs") \/ (Rej_Groups(a, cfg) /\ t.errk = "groups") THEN OK
     ELSE IF KF_BnNoAffine(a, cfg) /\ t.errk = "other"
         THEN K("F53:PIT(model) raises on a BatchNorm with affine=False (" \o t.err \o ")")
